@@ -473,36 +473,8 @@ func runC14(p *core.Prog, r *core.Report, tier string) {
 	// ---- (h): accounts of an epoch are subscribed for that epoch ----
 	// subscribeToBeaconCommittees(ctx, E, accounts): the accounts come from the lookup for the same E (a refresh
 	// that re-subscribes another epoch leaves the changed duties of E without subscriptions and its stored info stale)
-	nH := 0
-	for _, f := range p.FuncsIn(ctrlRel) {
-		for _, ci := range core.Calls(f, func(c *ssa.CallCommon) bool {
-			callee := c.StaticCallee()
-			return callee != nil && callee.Name() == "subscribeToBeaconCommittees"
-		}) {
-			args := ci.Common().Args
-			if len(args) < 4 {
-				continue
-			}
-			ed, ad := ds.D(args[len(args)-2]), ds.D(args[len(args)-1])
-			// the epoch the accounts were obtained for
-			var src *core.VD
-			ad.Walk(func(x *core.VD) bool {
-				if x.Kind == "call" && (strings.HasSuffix(x.Name, "accountsAndIndicesForEpoch") || strings.Contains(x.Name, "AccountsForEpoch")) && len(x.Args) >= 1 {
-					src = x.Args[len(x.Args)-1]
-					if strings.Contains(x.Name, "ByIndex") && len(x.Args) >= 2 {
-						src = x.Args[len(x.Args)-2]
-					}
-				}
-				return true
-			})
-			if src == nil {
-				continue // accounts handed in by the caller: checked at that call site
-			}
-			nH++
-			r.Check(src.String() == ed.String(), "C14.h", core.FnKey(f)+"|subscribe-epoch", p.Pos(ci.Pos()), "subscribed for the epoch the accounts were obtained for: "+ed.String(),
-				fmt.Sprintf("beacon committee subscriptions are requested for epoch %s with the accounts obtained for epoch %s", ed, src))
-		}
-	}
+	nH := checkEpochPairing(p, r, ds, "C14.h", []string{"subscribeToBeaconCommittees"},
+		"beacon committee subscriptions are requested for epoch %s with the accounts obtained for epoch %s")
 	r.Floor("C14.h subscription calls with locally obtained accounts", nH, 3)
 
 	// ---- (i): the selection hash is over one signature ----
@@ -626,4 +598,56 @@ func checkSubscriptionLit(p *core.Prog, r *core.Report, ds *core.Describer, f *s
 func isSubscriptionPtr(t types.Type) bool {
 	pt, ok := t.(*types.Pointer)
 	return ok && typeName(pt) == "beaconcommitteesubscriber.Subscription"
+}
+
+// checkEpochPairing: calls f(ctx, E, X, ...) of the controller's schedulers/subscribers whose X was obtained in the
+// same function from accountsAndIndicesForEpoch(ctx, E') (or an accounts provider's ...ForEpoch(ctx, E', ...)) have
+// E' == E: what is set up for an epoch is computed from that epoch's validators. Returns the number of calls decided.
+func checkEpochPairing(p *core.Prog, r *core.Report, ds *core.Describer, rule string, callees []string, badFmt string) int {
+	n := 0
+	seen := map[string]int{}
+	for _, f := range p.FuncsIn(ctrlRel) {
+		for _, ci := range core.Calls(f, func(c *ssa.CallCommon) bool {
+			callee := c.StaticCallee()
+			if callee == nil {
+				return false
+			}
+			for _, nm := range callees {
+				if callee.Name() == nm {
+					return true
+				}
+			}
+			return false
+		}) {
+			args := ci.Common().Args
+			if len(args) < 4 {
+				continue
+			}
+			// (recv, ctx, epoch, data, ...)
+			ed := ds.D(args[2])
+			var src *core.VD
+			for _, a := range args[3:] {
+				ds.D(a).Walk(func(x *core.VD) bool {
+					if x.Kind == "call" && (strings.HasSuffix(x.Name, "accountsAndIndicesForEpoch") || strings.Contains(x.Name, "AccountsForEpoch")) && len(x.Args) >= 1 {
+						src = x.Args[len(x.Args)-1]
+						if strings.Contains(x.Name, "ByIndex") && len(x.Args) >= 2 {
+							src = x.Args[len(x.Args)-2]
+						}
+					}
+					return true
+				})
+			}
+			if src == nil {
+				continue // handed in by the caller: decided at that call site
+			}
+			n++
+			key := core.FnKey(f) + "|" + ci.Common().StaticCallee().Name() + "|epoch-of-its-validators"
+			seen[key]++
+			if seen[key] > 1 {
+				key = fmt.Sprintf("%s#%d", key, seen[key])
+			}
+			r.Check(src.String() == ed.String(), rule, key, p.Pos(ci.Pos()), "set up for the epoch its validators were obtained for: "+ed.String(), fmt.Sprintf(badFmt, ed, src))
+		}
+	}
+	return n
 }
